@@ -605,6 +605,14 @@ def eval_dyad_join(a, b, backend):
     return numpy.asarray(r_numpy, dtype=object)
 
 
+def _empty_operand(x, y):
+    """The empty list among x and y (comparing it with any atom, also a character or string, gives the empty list)."""
+    for v in (x, y):
+        if is_list(v) and len(v) == 0:
+            return numpy.asarray([], dtype=int)
+    return None
+
+
 def eval_dyad_less(a, b, backend):
     """
 
@@ -626,7 +634,7 @@ def eval_dyad_less(a, b, backend):
                    [1 2 3]<[1 4 3]  -->  [0 1 0]
 
     """
-    return kg_truth(backend.vec_fn2(a, b, lambda x,y: x < y if (isinstance(x,str) and isinstance(y,str)) else backend.np.less(x,y)))
+    return kg_truth(backend.vec_fn2(a, b, lambda x,y: x < y if (isinstance(x,str) and isinstance(y,str)) else _empty_operand(x, y) if _empty_operand(x, y) is not None else backend.np.less(x,y)))
 
 
 def eval_dyad_match(a, b, backend):
@@ -739,7 +747,7 @@ def eval_dyad_more(a, b, backend):
                    [1 4 3]>[1 2 3]  -->  [0 1 0]
 
     """
-    return kg_truth(backend.vec_fn2(a, b, lambda x,y: x > y if (isinstance(x,str) and isinstance(y,str)) else backend.np.greater(x,y)))
+    return kg_truth(backend.vec_fn2(a, b, lambda x,y: x > y if (isinstance(x,str) and isinstance(y,str)) else _empty_operand(x, y) if _empty_operand(x, y) is not None else backend.np.greater(x,y)))
 
 
 def eval_dyad_multiply(a, b, backend):
